@@ -156,3 +156,7 @@ def batch_unit(kf):
 
 UNITS['c20_batch'] = (['C20'], batch_unit)
 SEARCH['c20_batch'] = ['c20_policy']
+
+BOUNDED = {'C20': [dict(case='c20_policy', function='the policy attached to a response end to end: derive-emitted cache_control hints (Object, SimpleObject incl. generic `concrete` instantiations, fields), validation::visitors::CacheControlCalculate through the visit_* driver, Schema::execute / execute_batch, BatchResponse::cache_control',
+                        bound='32 hand-written (query or batch, expected policy) pairs on a derive-built schema: aliases, fragments, private / no-cache / max-age hints on objects and fields, generic SimpleObjects, partial responses, batches',
+                        why='ties the merge / visitor / batch kernels to the derive macros and the visitor driver, which are proc-macro output and closure-heavy traversal code outside Verus and Kani')]}
